@@ -282,10 +282,12 @@ let monitors (lineno : int) (c : case) (x : run) (roots : string list) : unit =
   if panicked || not x.alive || x.deadlock <> "-" then begin
     incr impl_panics;
     let locs = List.concat (List.map (function ["X"; l] -> [l] | _ -> []) x.reps) in
-    let cls = if x.deadlock <> "-" then "deadlock" else if roots <> [] then String.concat "," roots
-              else if locs <> [] then String.concat "," locs else "poisoned" in
-    mon lineno c "panic" cls (Printf.sprintf "replies=[%s],alive=%b,deadlock=%s,at=%s" (String.concat ";" (List.map (String.concat ":") x.reps)) x.alive x.deadlock
-                                (String.concat "," locs)) w
+    let detail = Printf.sprintf "replies=[%s],alive=%b,deadlock=%s,at=%s" (String.concat ";" (List.map (String.concat ":") x.reps)) x.alive x.deadlock
+                   (String.concat "," locs) in
+    (* one finding per root cause: the model's label of the unwrap / arithmetic site when the model aborts there too *)
+    let classes = if x.deadlock <> "-" then ["deadlock"] else if roots <> [] then roots
+                  else if locs <> [] then locs else ["poisoned"] in
+    List.iter (fun cls -> mon lineno c "panic" cls detail w) classes
   end;
   (* orphan records *)
   let apps = model_apps x.st and trks = model_trks x.st and users = model_users x.st in
@@ -295,15 +297,24 @@ let monitors (lineno : int) (c : case) (x : run) (roots : string list) : unit =
   if not panicked && x.deadlock = "-" then begin
     (* serial: the final state is the final state of a sequential order *)
     if not (List.exists (fun (_, s) -> s = x.st) c.seqs) then begin
-      let stamps = ["apps.start"; "trks.height"; "users.start"] in
-      let weight d = List.fold_left (fun a f -> a + (if List.mem f stamps then 1 else 100)) 0 d in
+      (* columns that hold a height read from one of the AtomicU32 heights (or the carrier's copy); the expiry of a
+         subscription created in this run is such a height plus the configured duration *)
+      let stamps d = ["apps.start"; "trks.height"; "users.start"] @ (if List.mem "users.start" d then ["users.expiry"; "mem.expiry"] else []) in
+      let rest d = List.filter (fun f -> not (List.mem f (stamps d))) d in
+      let weight d = 100 * List.length (rest d) + List.length d in
       let best = List.fold_left (fun acc (_, s) ->
         let d = uniq (diff_class x.st s) in
         match acc with Some b when (weight b, b) <= (weight d, d) -> acc | _ -> Some d) None c.seqs in
       let same_uuid_adds =
         let adds = List.concat (List.map (function [{ op = OAdd (Some u, loc, _, _, _); _ }] -> [(loc, u)] | _ -> []) c.threads) in
         List.length (uniq adds) < List.length adds in
-      let cls = (match best with Some d -> String.concat "," d | None -> "no-sequential-run") ^ (if same_uuid_adds then ":same-appointment-twice" else "") in
+      let cls = (match best with
+                 | None -> "no-sequential-run"
+                 | Some d ->
+                     (match rest d with
+                      | [] -> "height-stamps-only"
+                      | r -> String.concat "," r ^
+                             (if same_uuid_adds && List.for_all (fun f -> f = "mem.slots" || f = "users.slots") r then ":same-appointment-twice" else ""))) in
       mon lineno c "serial" cls (Printf.sprintf "state=[%s],replies=[%s],sequential=[%s]" (show_obs x.st) (reps_s x.reps)
                                   (String.concat " || " (List.map (fun (_, s) -> show_obs s) c.seqs))) w
     end;
